@@ -77,7 +77,7 @@ func edgeAllowed(role string, a, b int) bool {
 func enumC04(t *testing.T, tier string) []string {
 	maxW := 0
 	for i := 0; i < 6; i++ {
-		spec := RunSpec{Prop: "C04", Variant: "probe", Seed: uint64(500 + i), Tier: tier}
+		spec := RunSpec{Prop: "C04", Variant: "probe", Seed: uint64(500 + i), Tier: tier, Feat: FeatAll}
 		res := Execute(t, spec)
 		if m, ok := res.Sample.(map[string]any); ok {
 			if w, ok := m["writes"].(int); ok && w > maxW {
